@@ -182,6 +182,27 @@ FIXED = [
     "def f():\n  x = 1\n  def g():\n    nonlocal x\n    x = 2\n  return g\n",
     "[x for x in range(3) if x for y in range(x)]\n",
     "{**a, 'k': 1}\n(a := 1)\nprint(f'{a!r:>{10}}')\n",
+    # errors reported at the very end of the file
+    "def f(x) -> int:\n  if x:\n    return 1\n",
+    "def f(x) -> int:\n  if x:\n    return 1",
+    "class A:\n  def m(self) -> str:\n    for i in []:\n      return 's'\n",
+    "def g() -> int:\n  try:\n    return 1\n  except E:\n    pass\n",
+    "x = 1\ndef h(a) -> str:\n  while a:\n    a -= 1\n",
+    "def k() -> int:\n  with open('f') as q:\n    pass\n",
+    "async def c() -> int:\n  if 1:\n    await c()\n",
+    "def f() -> int: pass",
+    # constant indices at and beyond the ends of known-length sequences
+    "t = (1, 'a')\na = t[2]\nb = t[-3]\nc = t[5]\nd = t[-2]\ne = t[1]\n",
+    "l = [1, 2, 3]\na = l[3]\nb = l[-4]\ns = 'abc'\nc = s[3]\nd = b'ab'[2]\n",
+    "t = ()\na = t[0]\nb = t[-1]\nu = (1,)\nc = u[1]\nd = u[True]\ne = u[-1:5]\n",
+    "def f():\n  t = (1, 2, 3)\n  x, y = t\n  a, b, c, d = t\n  return t[3]\n",
+    "t = (1, 2)\nfor i in (0, 1, 2):\n  v = t[i]\nw = t[len(t)]\n",
+    "d = {'a': 1}\nx = d['b']\ny = {}[0]\nz = [][0]\nq = ''[0]\n",
+    # very long modules (EXTENDED_ARG opcodes around try bodies)
+    "\n".join("n%d = %d" % (i, i) for i in range(300)) +
+    "\ntry:\n  late = n299 + 1\nexcept ValueError:\n  late = 0\n",
+    "\n".join("def f%d(): return %d" % (i, i) for i in range(270)) +
+    "\ntry:\n  v = f269()\nfinally:\n  w = f0()\n",
 ]
 
 
